@@ -171,6 +171,15 @@ func oracleReads(probes [][]byte) Oracle {
 				}
 			}
 		}
+		// ImmutableTrees obtained earlier in the history still read as their version (while it is retained)
+		for ver, it := range w.held {
+			if !m.Has(ver) {
+				continue // reading a version that was deleted meanwhile is outside the contract
+			}
+			if v := checkReader(fmt.Sprintf("ImmutableTree of version %d obtained earlier in the history", ver), it, w.heldC[ver], probes); v != nil {
+				return v
+			}
+		}
 		return nil
 	}}
 }
